@@ -383,11 +383,23 @@ def c07_job(chk, rng, i):
         # the machinery can also be forced without a textual REJECT
         case["opts"]["reject_opt"] = True
         case["opts"]["uses_reject"] = True
+    more_prefix = (i % 3 == 1)
+    if more_prefix:
+        # a rule that always calls yymore(): the token after it carries the kept text, and so
+        # must every alternative its action reaches through REJECT
+        case["rules"].insert(0, {"scs": "*", "bol": False, "pat": ("chr", 60), "trail": None,
+                                 "act": [("more",)]})
+        case["uses"] = sorted(set(case.get("uses", [])) | {"more"})
     scripts.driver_walk_scs(case, rng)
     ctx = gen.ctx_of(case)
     inputs = []
     for k in range(12):
         s = g.make_input(case, ctx, maxlen=50)
+        if more_prefix:
+            sb = bytearray(s.replace(b"<", b""))
+            for _ in range(rng.rint(2, 5)):
+                sb[rng.below(len(sb) + 1):0] if False else sb.insert(rng.below(len(sb) + 1), 60)
+            s = bytes(sb)
         inputs.append({"sources": [s], "sched": rng.choice([[0], [1], [3], [2, 5]])})
     case["budget"] = {"events": 1500}
     fl = flavour4(i)
@@ -400,8 +412,13 @@ def c07_job(chk, rng, i):
     mode = rotate(i // 2, [None, False, True, False])
     if mode is not None:
         cfg["opts"]["interactive"] = mode
+    feats = ["mode:" + str(mode)]
+    if more_prefix:
+        if fl != "cxx" and (i // 3) % 2 == 0:
+            cfg["opts"]["array"] = True
+        feats.append("reject_after_yymore:" + ("array" if cfg["opts"].get("array") else "pointer"))
     return {"case": case, "configs": [cfg], "inputs": inputs, "skip_if": dangerous,
-            "features": ["mode:" + str(mode)]}
+            "features": feats}
 
 
 # ---------------------------------------------------------------------------- C08
